@@ -144,6 +144,7 @@ def run(ctx):
     ctx.explore("values", dm.value_sweep(), check_doc, chunk=10)
     ctx.explore("decoration", dm.decoration_sweep(), check_doc_singles, chunk=40)
     ctx.explore("frontmatter", dm.frontmatter_docs(), check_doc_singles, chunk=2)
+    ctx.explore("deep", dm.deep_docs(), check_doc_singles, chunk=1)
     ctx.explore("targets", dm.target_docs(), check_doc, chunk=1)
     ctx.explore("comments", dm.comment_sweep(2 if ctx.quick else 3), check_doc_singles, chunk=20)
     ctx.explore("adjacency", dm.adjacency_sweep(inside=("top",) if ctx.quick else ("top", "block", "section")), check_doc_singles,
